@@ -185,7 +185,9 @@ Definition emit_step (c : cfg) (w : wstate) (act : N) (d : dir) (t : N) (id : Z)
             let w := failif (s_close s) w 1309 act id 0 in
             set_stream w (t, id) (mkS (s_rev s) (s_rpc s) (s_cwin s) (s_swin s) (s_half s) (s_cancel s) (s_hdrs s) true (s_c s) (s_s s))
         | S2C, KWu n =>
-            let w := failif (s_close s) w 1308 act id 0 in
+            (* after a close that answers a cancel, a reader that was mid-dequeue may still return
+               its credit: the close is only required to be last on a stream the handler ended *)
+            let w := failif (s_close s && negb (s_cancel s)) w 1308 act id 0 in
             let w := failif (s_rev s =? 0)%Z w 1313 act id 0 in
             let ds := s_s s in
             let w := failif (d_deliv (s_c s) <? d_wu ds + n) w 603 act id (Z.of_N (d_wu ds + n)) in
